@@ -27,7 +27,8 @@ Definition owned (s : state) : list nat := aorder (st_ar s) ++ nq_idx (st_newq s
 Record Inv (cf : cfg) (s : state) : Prop := {
   i_clen : length (cslots (st_ctl s)) = cap cf;
   i_alen : length (aslots (st_ar s)) = cap cf;
-  i_free : exists fl, chain (cslots (st_ctl s)) (chead (st_ctl s)) fl /\ NoDup fl /\
+  i_free : 1 <= cap cf ->
+           exists fl, chain (cslots (st_ctl s)) (chead (st_ctl s)) fl /\ NoDup fl /\
                       (forall i, In i fl <-> i < cap cf /\ cfree (cs s i) = true);
   i_gen : forall i, i < cap cf -> agen (asl s i) = cgen (cs s i);
   i_part : NoDup (owned s);
@@ -56,11 +57,13 @@ Record Inv (cf : cfg) (s : state) : Prop := {
   i_counts : st_created s = st_removed s + length (owned s)
 }.
 
-(** the bound that keeps the unused-ring from overflowing; it is preserved only by schedules without
-    the race of finding F22 (see [racy] below) *)
+(** the bound that keeps the unused-ring (capacity + 1 slots) from overflowing: payloads waiting to be
+    dropped + the one in flight + occupied + queued (+ 1 between the drain's empty observation and
+    the push) never exceed capacity + 1.  The "+ 1" is the payload whose slot the audio thread has
+    already freed when the gameplay thread's drain looks at the ring (finding F27). *)
 Definition QInv (cf : cfg) (s : state) : Prop :=
   length (st_unused s) + length (infl (st_inflight s)) + length (aorder (st_ar s))
-  + length (st_newq s) + rprime (st_g s) <= cap cf.
+  + length (st_newq s) + rprime (st_g s) <= S (cap cf).
 
 Ltac sproj :=
   unfold owned, reject_payload, set_g, set_a, set_ctl in *;
@@ -87,12 +90,12 @@ Lemma slot_payloads_repeat g n : slot_payloads (repeat (mkA None g) n) = [].
 Proof. induction n; cbn; auto. Qed.
 
 (** ** initial state *)
-Lemma inv_init cf : 1 <= cap cf -> Inv cf (init cf).
+Lemma inv_init cf : Inv cf (init cf).
 Proof.
-  intro Hc. constructor; unfold init; sproj; cbn [arena_new aslots aorder nq_idx map app length].
+  constructor; unfold init; sproj; cbn [arena_new aslots aorder nq_idx map app length].
   - unfold ctl_new; cbn. now rewrite map_length, seq_length.
   - now rewrite repeat_length.
-  - exists (seq 0 (cap cf)). split; [|split].
+  - intro Hc. exists (seq 0 (cap cf)). split; [|split].
     + pose proof (ctl_new_chain (cap cf) 0 ltac:(lia)) as H.
       destruct (Nat.ltb_spec 0 (cap cf)); [|lia]. now rewrite Nat.sub_0_r in H.
     + apply seq_NoDup.
@@ -138,6 +141,10 @@ Lemma inv_g_reserve cf s s' : Inv cf s -> g_reserve cf s = Ok s' -> Inv cf s'.
 Proof.
   intros I H. unfold g_reserve in H.
   destruct (st_g s) eqn:Eg; try (inversion H; subst; exact I).
+  unfold res_try_reserve, ctl_capacity in H.
+  destruct (length (cslots (st_ctl s)) =? 0) eqn:Ez; cbn [obind] in H.
+  { inversion H; subst. destruct (prebuild cf); [|exact I]. now apply inv_reject. }
+  apply Nat.eqb_neq in Ez. rewrite (i_clen _ _ I) in Ez.
   unfold ctl_try_reserve in H.
   destruct (chead (st_ctl s)) as [h|] eqn:Eh; cbn in H.
   2:{ inversion H; subst. destruct (prebuild cf); [|exact I]. now apply inv_reject. }
@@ -145,7 +152,7 @@ Proof.
   inversion H; subst; clear H.
   apply (nth_error_nth_d _ _ _ dC) in En as [Hh Esl].
   destruct I. sproj. rewrite Eg in *. sproj.
-  destruct i_free0 as (fl & Hch & Hnd & Hfl).
+  destruct (i_free0 ltac:(lia)) as (fl & Hch & Hnd & Hfl).
   destruct fl as [|h' r]; cbn [chain] in Hch; [congruence|].
   destruct Hch as (Eh' & _ & Hch). rewrite Eh in Eh'. inversion Eh'; subst h'. clear Eh'.
   inversion Hnd as [|? ? Hhr Hndr]; subst.
@@ -162,7 +169,7 @@ Proof.
   { now apply nth_upd_eq. }
   constructor; sproj; auto.
   - now rewrite upd_length.
-  - exists r. split; [|split]; auto.
+  - intros _. exists r. split; [|split]; auto.
     + now apply chain_upd.
     + intro i. destruct (Nat.eq_dec i h) as [->|Hne].
       * rewrite Hnthh. cbn. split; [tauto|]. intros [_ ?]; discriminate.
@@ -328,7 +335,7 @@ Proof.
   destruct (st_inflight s) as [pf|] eqn:Ef; [destruct cur; inversion H; subst; exact I|].
   destruct cur as [|k rest].
   { inversion H; subst. apply inv_set_a; auto. discriminate. }
-  destruct (selfref cf && ring_is_full (cap cf) (st_unused s)) eqn:Efull.
+  destruct (selfref cf && ring_is_full (unused_cap cf) (st_unused s)) eqn:Efull.
   { inversion H; subst. apply inv_set_a; auto. discriminate. }
   pose proof (i_cur _ _ I _ Ea) as [NDcur Hcur].
   assert (Hpk : present (st_ar s) k) by (apply Hcur; now left).
@@ -373,7 +380,7 @@ Proof.
   constructor; sproj; auto.
   - now rewrite upd_length.
   - now rewrite upd_length.
-  - destruct i_free0 as (fl & Hch & Hnd & Hfl).
+  - intros _. destruct (i_free0 ltac:(lia)) as (fl & Hch & Hnd & Hfl).
     assert (Hnfl : ~ In idx fl). { intro Hin. apply Hfl in Hin as [_ Hin]. congruence. }
     exists (idx :: fl). split; [|split].
     + cbn [chain]. split; auto. split; [rewrite upd_length; lia|].
@@ -434,8 +441,8 @@ Lemma inv_a_push cf s s' : Inv cf s -> a_push cf s = Ok s' -> Inv cf s'.
 Proof.
   intros I H. unfold a_push in H.
   destruct (st_inflight s) as [p|] eqn:Ef; [|inversion H; subst; exact I].
-  destruct (ring_push (cap cf) (st_unused s) p) as [u'|] eqn:Ep; [|discriminate].
-  unfold ring_push in Ep. destruct (ring_is_full (cap cf) (st_unused s)); inversion Ep; subst; clear Ep.
+  destruct (ring_push (unused_cap cf) (st_unused s) p) as [u'|] eqn:Ep; [|discriminate].
+  unfold ring_push in Ep. destruct (ring_is_full (unused_cap cf) (st_unused s)); inversion Ep; subst; clear Ep.
   inversion H; subst; clear H.
   destruct I. sproj. rewrite Ef in *. constructor; sproj; auto.
   cbn [infl] in *. now rewrite app_nil_r.
